@@ -536,3 +536,229 @@ Proof.
   - rewrite Hu, Hp. apply length_first_occ_dedup.
   - rewrite Hu. apply length_first_occ_dedup.
 Qed.
+
+(* ================================================================================================ *)
+(* per-order category construction                                                                 *)
+(* ================================================================================================ *)
+
+Lemma lenN_app {T} (a b : list T) : lenN (a ++ b) = lenN a + lenN b.
+Proof. unfold lenN. rewrite app_length. lia. Qed.
+
+Lemma take_while_lt_spec t : forall rest alts alts' rest',
+  take_while_lt t alts rest = (alts', rest') ->
+  exists g, rest = g ++ rest' /\ alts' = alts ++ concat g /\
+    (forall g1 x g2, g = g1 ++ x :: g2 -> lenN (alts ++ concat g1) < t) /\
+    (t <= lenN alts' \/ rest' = []).
+Proof.
+  induction rest as [|c rest IH]; intros alts alts' rest' H; simpl in H.
+  - inversion H; subst. exists []. simpl. rewrite app_nil_r. splits; auto.
+    intros [|? ?] ? ? ?; discriminate.
+  - destruct (lenN alts <? t) eqn:Hlt.
+    + apply IH in H. destruct H as (g & Hr & Ha & Hs & He).
+      exists (c :: g). simpl. splits.
+      * congruence.
+      * rewrite Ha, app_assoc. reflexivity.
+      * intros [|y g1] x g2 Hg; simpl in *.
+        -- rewrite app_nil_r. apply N.ltb_lt. assumption.
+        -- inversion Hg; subst. rewrite app_assoc. eapply Hs. reflexivity.
+      * assumption.
+    + inversion H; subst. exists []. simpl. rewrite app_nil_r. splits; auto.
+      * intros [|? ?] ? ? ?; discriminate.
+      * left. apply N.ltb_ge. assumption.
+Qed.
+
+Lemma append_rest_cons a cats rest : append_rest (a :: cats) rest = a :: append_rest cats rest.
+Proof. destruct rest; reflexivity. Qed.
+
+Lemma size_pref_nil o : size_pref [] o = match o with [] => [] | _ :: _ => [concat o] end.
+Proof. destruct o; reflexivity. Qed.
+
+Lemma size_pref_cons t ts o :
+  size_pref (t :: ts) o =
+  let '(alts, rest) := take_while_lt t [] o in
+  match rest with [] => [alts] | _ :: _ => alts :: size_pref ts rest end.
+Proof.
+  unfold size_pref. simpl. destruct (take_while_lt t [] o) as [alts rest].
+  destruct rest as [|c rest]; [reflexivity|].
+  destruct (size_loop ts (c :: rest)) as [cats r]. apply append_rest_cons.
+Qed.
+
+Lemma size_rule_holds ts : forall o, size_rule ts o (size_pref ts o).
+Proof.
+  induction ts as [|t ts IH]; intros o.
+  - rewrite size_pref_nil. destruct o; reflexivity.
+  - rewrite size_pref_cons. destruct (take_while_lt t [] o) as [alts rest] eqn:Ht.
+    apply take_while_lt_spec in Ht. destruct Ht as (g & Ho & Ha & Hs & He). simpl in Ha, Hs.
+    cbn [size_rule]. exists g, rest. split.
+    + unfold shortest_reaching. splits; auto. subst alts. assumption.
+    + destruct rest as [|c rest]; [congruence|].
+      exists (size_pref ts (c :: rest)). split; [congruence | apply IH].
+Qed.
+
+Lemma take_classes_spec : forall rest num,
+  take_classes num rest = (concat (firstn (N.to_nat num) rest), skipn (N.to_nat num) rest).
+Proof.
+  induction rest as [|c rest IH]; intros num; simpl.
+  - destruct (N.to_nat num); reflexivity.
+  - destruct (N.eqb_spec num 0) as [E|E].
+    + subst. reflexivity.
+    + rewrite IH. replace (N.to_nat num) with (S (N.to_nat (N.pred num))) by lia. reflexivity.
+Qed.
+
+Lemma classes_pref_nil o : classes_pref [] o = match o with [] => [] | _ :: _ => [concat o] end.
+Proof. destruct o; reflexivity. Qed.
+
+Lemma classes_pref_cons n ns o :
+  classes_pref (n :: ns) o =
+  concat (firstn (N.to_nat n) o) :: classes_pref ns (skipn (N.to_nat n) o).
+Proof.
+  unfold classes_pref. simpl. rewrite take_classes_spec.
+  destruct (classes_loop ns (skipn (N.to_nat n) o)) as [cats r]. apply append_rest_cons.
+Qed.
+
+Lemma classes_rule_holds ns : forall o, classes_rule ns o (classes_pref ns o).
+Proof.
+  induction ns as [|n ns IH]; intros o.
+  - rewrite classes_pref_nil. destruct o; reflexivity.
+  - rewrite classes_pref_cons. cbn [classes_rule]. eexists. split; [reflexivity | apply IH].
+Qed.
+
+(* both rules produce a partition of the order into runs of whole consecutive classes *)
+Lemma Partition_flat o b : Partition o b -> concat b = concat o.
+Proof.
+  intros (groups & H1 & H2). subst.
+  induction groups as [|g gs IH]; simpl; auto. rewrite concat_app. congruence.
+Qed.
+
+Lemma size_rule_partition ts : forall o r, size_rule ts o r -> Partition o r.
+Proof.
+  induction ts as [|t ts IH]; intros o r H; cbn [size_rule] in H.
+  - destruct o as [|c o]; subst r.
+    + exists []. split; reflexivity.
+    + exists [c :: o]. simpl. rewrite app_nil_r. split; reflexivity.
+  - destruct H as (g & rest & (Ho & _ & _) & H). destruct rest as [|c rest].
+    + subst r. exists [g]. simpl. rewrite !app_nil_r in *. split; congruence.
+    + destruct H as (r' & Hr & H). apply IH in H. destruct H as (groups & Hg1 & Hg2).
+      exists (g :: groups). simpl. split; congruence.
+Qed.
+
+Lemma classes_rule_partition ns : forall o r, classes_rule ns o r -> Partition o r.
+Proof.
+  induction ns as [|n ns IH]; intros o r H; cbn [classes_rule] in H.
+  - destruct o as [|c o]; subst r.
+    + exists []. split; reflexivity.
+    + exists [c :: o]. simpl. rewrite app_nil_r. split; reflexivity.
+  - destruct H as (r' & Hr & H). apply IH in H. destruct H as (groups & Hg1 & Hg2).
+    exists (firstn (N.to_nat n) o :: groups). simpl. split.
+    + rewrite Hg1. apply firstn_skipn.
+    + congruence.
+Qed.
+
+Lemma concat_repeat_nil {T} n : concat (repeat (@nil T) n) = [].
+Proof. induction n; simpl; auto. Qed.
+
+Lemma map_concat_repeat_nil n : map (@concat N) (repeat [] n) = repeat [] n.
+Proof. induction n; simpl; congruence. Qed.
+
+Lemma Partition_pad k o b : Partition o b -> Partition o (pad k b).
+Proof.
+  intros (groups & H1 & H2). unfold pad.
+  exists (groups ++ repeat [] (N.to_nat k - length b)). split.
+  - rewrite concat_app, concat_repeat_nil, app_nil_r. assumption.
+  - rewrite map_app, map_concat_repeat_nil, <- H2. reflexivity.
+Qed.
+
+(* ---- the variable size_truncators is overwritten inside the loop: no observable effect ---- *)
+Lemma order_pref_fst nic rst st o :
+  fst (order_pref nic rst st o) = raw_pref nic st rst o.
+Proof.
+  unfold order_pref, raw_pref. destruct (truthy rst) eqn:Hr.
+  - rewrite orb_true_r. reflexivity.
+  - rewrite orb_false_r. destruct (truthy st); [reflexivity|]. destruct (truthy nic); reflexivity.
+Qed.
+
+Lemma order_pref_snd nic rst st o o' :
+  raw_pref nic (snd (order_pref nic rst st o)) rst o' = raw_pref nic st rst o'.
+Proof.
+  unfold order_pref, raw_pref. destruct (truthy rst) eqn:Hr.
+  - reflexivity.
+  - rewrite orb_false_r. destruct (truthy st) eqn:Hs; simpl; [rewrite Hs; reflexivity|].
+    destruct (truthy nic); simpl; rewrite Hs; reflexivity.
+Qed.
+
+Lemma fo_raw_map nic st rst src :
+  fo_raw nic st rst src = map (fun om => raw_pref nic st rst (fst om)) src.
+Proof.
+  unfold fo_raw. revert st. induction src as [|[o m] src IH]; intros st; simpl; auto.
+  pose proof (order_pref_fst nic rst st o) as H1. pose proof (order_pref_snd nic rst st o) as H2.
+  destruct (order_pref nic rst st o) as [p st']. simpl in H1, H2. rewrite IH, H1. f_equal.
+  apply map_ext. intros om. apply H2.
+Qed.
+
+Lemma raw_pref_partition nic st rst o :
+  truthy nic || truthy st || truthy rst = true -> Partition o (raw_pref nic st rst o).
+Proof.
+  intros H. unfold raw_pref. destruct (truthy rst).
+  - eapply size_rule_partition, size_rule_holds.
+  - destruct (truthy st).
+    + eapply size_rule_partition, size_rule_holds.
+    + destruct (truthy nic); [|discriminate]. eapply classes_rule_partition, classes_rule_holds.
+Qed.
+
+(* ---- padding ---- *)
+Lemma max_len_ge (raw : list ballot) r : In r raw -> lenN r <= fold_right N.max 0 (map lenN raw).
+Proof.
+  induction raw as [|x raw IH]; simpl; intros H; [tauto|].
+  destruct H as [H|H]; [subst; lia | specialize (IH H); lia].
+Qed.
+
+Lemma max_len_attained (raw : list ballot) : raw <> [] -> exists r, In r raw /\ lenN r = fold_right N.max 0 (map lenN raw).
+Proof.
+  induction raw as [|x raw IH]; intros H; [congruence|]. simpl.
+  destruct raw as [|y raw].
+  - exists x. simpl. split; auto. lia.
+  - destruct IH as (r & Hr & He); [discriminate|].
+    destruct (N.leb_spec (lenN x) (fold_right N.max 0 (map lenN (y :: raw)))) as [L|L].
+    + exists r. split; [right; assumption|]. rewrite He. lia.
+    + exists x. split; [left; reflexivity|]. lia.
+Qed.
+
+Lemma pad_length k (p : ballot) : lenN p <= k -> lenN (pad k p) = k.
+Proof. unfold pad, lenN. intros H. rewrite app_length, repeat_length. lia. Qed.
+
+Lemma cat_names_length n : forall z, length (cat_names_from z n) = n.
+Proof. induction n as [|n IHn]; intros z; simpl; [reflexivity | rewrite IHn; reflexivity]. Qed.
+
+Lemma max_len_ok raw k : max_len raw = Ok k -> raw <> [] /\ k = fold_right N.max 0 (map lenN raw).
+Proof. unfold max_len. destruct raw; intros H; inversion H. split; [discriminate | reflexivity]. Qed.
+
+Lemma fo_padding_lemma src nic st rst ci :
+  from_ordinal src nic st rst = Ok ci ->
+  let raw := fo_raw nic st rst (os_multiplicity src) in
+  let bs := fo_ballots nic st rst (os_multiplicity src) in
+  let k := ci_num_categories ci in
+  bs = map (fun r => r ++ repeat [] (N.to_nat k - length r)) raw /\
+  (forall r, In r raw -> lenN r <= k) /\
+  (exists r, In r raw /\ lenN r = k) /\
+  Forall (fun b => lenN b = k) bs /\
+  Forall (fun b => lenN b = k) (ci_preferences ci) /\
+  length (ci_categories_name ci) = N.to_nat k.
+Proof.
+  intros H. pose proof (fo_conserve_lemma _ _ _ _ _ H) as Hc. cbv zeta in Hc.
+  apply from_ordinal_ok in H. cbv zeta in H |- *.
+  destruct H as (k & Hk & _ & Hbs & Hp & _ & Hnc & Hcn & _).
+  rewrite Hnc.
+  remember (fo_raw nic st rst (os_multiplicity src)) as raw eqn:Eraw.
+  remember (fo_ballots nic st rst (os_multiplicity src)) as bs eqn:Ebs.
+  apply max_len_ok in Hk. destruct Hk as [Hne Hk].
+  assert (Hle : forall r, In r raw -> lenN r <= k).
+  { intros r Hr. rewrite Hk. apply max_len_ge. assumption. }
+  assert (Hall : Forall (fun b => lenN b = k) bs).
+  { rewrite Hbs. apply Forall_forall. intros b Hb. apply in_map_iff in Hb.
+    destruct Hb as (r & Hb & Hr). subst b. apply pad_length, Hle, Hr. }
+  splits; auto.
+  - rewrite Hk. apply max_len_attained. assumption.
+  - apply Forall_forall. intros b Hb. destruct Hc as (_ & _ & _ & Hin & _).
+    apply Hin in Hb. rewrite Forall_forall in Hall. apply Hall, Hb.
+  - rewrite Hcn. apply cat_names_length.
+Qed.
